@@ -98,7 +98,7 @@ def _cond(draw, n_models, n_params, types, allow_join, single_batch):
         c["params"] = []
     if len(c["params"]) == 2:
         # two Parameters can only be handed over joined (Parameter docstring, Notes)
-        if not allow_join:
+        if not allow_join or typ == "spy":
             c["params"] = c["params"][:1]
     if typ == "spy":
         c["use_iter"] = draw(st.booleans())
@@ -157,7 +157,7 @@ def config(draw, tier="quick", resume=False):
     train = [draw(_cond(n_models, n_params, types, allow_join, resume)) for _ in range(n_train)]
     spec = {"models": models, "params": params, "train": train,
             "opt": draw(_optimizer()),
-            "sched": draw(st.one_of(st.none(), _scheduler())),
+            "sched": draw(st.one_of(_scheduler(), st.none(), _scheduler())),
             "rng": draw(st.integers(0, 2 ** 31 - 1))}
     if resume:
         spec["steps"] = draw(st.sampled_from([4, 3, 5, 2, 6, 7, 8, 9, 10]))
@@ -435,6 +435,9 @@ def _build_cond(w, c, tag, gen, validation):
     info = {"type": typ, "model": mi, "adaptive": None, "n_points": None, "weight": c["weight"],
             "tag": tag,
             "params": sorted({i % len(w.params) for i in (c.get("params") or [])}) if w.params else []}
+    if typ == "spy" and len(info["params"]) > 1:     # the harness' own condition takes one Parameter
+        c = dict(c, params=info["params"][:1])
+        info["params"] = info["params"][:1]
     if validation and not c.get("track", True):
         c = dict(c, res="value")    # no input gradients available: derivative-free residual
     if validation and c.get("own_model"):
